@@ -309,6 +309,7 @@ register(
     level="exploration",
     rule=("1-4 producers (client tasks/threads, timers, raise actions) sending uniquely tagged events at lattice instants, single sends "
           "and send_events bursts below/at/above maxIterations, sends while start() is still descending, yielding and slow actions, "
+          "a sustained producer and bursts landing while a sleeping async action keeps a macrostep in flight (async_inflight), "
           "line-level pre-emption for the sync engine; history checked for exactly-once receipt, per-producer order, single worker per "
           "macrostep and no action running for an event other than the one being processed. Non-trivial = >= 3 events received"),
     nontrivial=lambda sc, r: sum(1 for x in r.trace if x[3] == "recv") >= 3,
@@ -360,7 +361,7 @@ register(
     stats=O.stats_c09,
     level="exploration",
     rule=("machines whose states invoke sync callables / coroutines with per-activation plans (duration on the 10 ms lattice, return | raise | "
-          "never), each result unique to (service, activation); events, bursts, slow actions and stop() placed around completion instants; "
+          "never), each result unique to (service, activation), in 40% of the machines several states share one explicit invoke id; events, bursts, slow actions and stop() placed around completion instants; "
           "history checked for one start per activation with the declared input, attribution of every handled completion to the activation "
           "that started it, done<->return / error<->raise, error status on unhandled failure, and a task census after exit and after stop(). "
           "Non-trivial = >= 1 service call and >= 3 transitions"),
@@ -440,7 +441,8 @@ register(
           "targets) and transitions targeting them; the harness records, from entry/exit markers, what was active under each "
           "history-owning parent at its last exit and computes the expected restored configuration with its own default-descent "
           "function; a crash/restore (snapshot -> fresh machine -> from_snapshot -> start) is inserted at a random point in one third "
-          "of the runs. Non-trivial = >= 1 history transition from outside the parent and >= 3 transitions"),
+          "of the runs; two families are rich in final children so that regions rest in a final state when their parallel parent is left. "
+          "Non-trivial = >= 1 history transition from outside the parent and >= 3 transitions"),
     nontrivial=lambda sc, r: O.stats_c11(sc, r)["history_transitions"] >= 1 and sum(1 for x in r.trace if x[3] == "trans") >= 3,
 )
 
@@ -714,8 +716,10 @@ register(
           "callables, guards, hostile plugin hooks, subscriber, emit listener), then the scenario is re-run once per call position (all "
           "of them up to 48, evenly thinned above) with that call raising, plus seeded pairs; twin comparison against the fault-free run "
           "(configuration sequence, action stream minus one contiguous remainder, on_action_error). Abort families poison one action "
-          "list / target / invoke (missing action, coroutine action under sync, unresolvable target, unregistered service) and check "
-          "rollback to the pre-transition configuration, reporting, re-armed timers and continued processing. evaluations counts "
+          "list / target / invoke (missing action, coroutine action under sync, unresolvable target, unregistered service), placed "
+          "with probability 0.85 on a list that a fault-free dry run of the same scenario executes after start(), and check "
+          "rollback to the pre-transition configuration (async aborts attributed to the caller's send by event tag), a legal "
+          "configuration at every observation after any abort, reporting, re-armed timers and continued processing. evaluations counts "
           "scenarios; fault positions are in the counters. Non-trivial = >= 3 transitions"),
 )
 
@@ -784,10 +788,12 @@ register(
     chunk=40,
     tiers={"quick": {"runs": 3000}, "thorough": {"runs": 200000}},
     nontrivial=lambda sc, r: True,
-    rule=("seven cycle templates (always ping-pong, self always, action raising its own trigger with and without re-entry, onDone "
+    rule=("eight cycle templates (always ping-pong, self always, action raising its own trigger with and without re-entry and with a "
+          "fan-out of two raises per round, onDone "
           "re-completing its state, self-enqueueing pure / enqueueActions) x natural length below / at / above maxIterations or endless x "
           "maxIterations in {3..40} x triggered by start() or by an event, followed by probe events and (half the runs) an external "
-          "send_events burst around the bound; termination is decided by counting sys.monitoring LINE events in repo code against a "
+          "send_events burst around the bound and (async, a third of the runs) more than maxIterations external events sent by another "
+          "task while a sleeping action keeps one macrostep in flight; termination is decided by counting sys.monitoring LINE events in repo code against a "
           "budget proportional to maxIterations (a spin is unwound by raising from the callback), rounds are counted from markers. "
           "distinct = (template, relation, trigger, engine, M) combinations via trace hash"),
 )
@@ -883,7 +889,8 @@ register(
     level="exploration",
     rule=("random sequences of start / send / send_events / stop / snapshot+restore(+start), repeated and out of order, at lattice "
           "instants around timer deadlines and service completions, from one or two clients without settling in between (race mode), "
-          "with stop() called from inside an action, after done, after error; machines carry after-timers, delayed raises with ids, "
+          "with stop() called from inside an action (in 40% of the `inside` runs by the transition that enters a top-level final state, "
+          "by its source's exit or by that final state's entry), after done, after error; machines carry after-timers, delayed raises with ids, "
           "services and final states. Status is sampled at every call, return, hook and observation and must follow the allowed edges; "
           "after stop() returns the task/thread census must be empty and no action / transition / event receipt may follow, including "
           "after advancing the clock past every pending delay. Non-trivial = >= 1 stop and >= 2 transitions"),
